@@ -211,7 +211,7 @@ static inline void atomic_u64_store(atomic_u64 *a, uint64_t v, int mo)
   mcs_check_not_recycled(slot);
   mcs_env(a, slot);
   __CPROVER_assert(slot == 0, "[C01][C02][G.step] plain stores go to my own node only");
-  __CPROVER_assert(!MCS.published, "[C02][G.node] after my node became reachable through the lock word it is modified only by read-modify-write operations (a plain store can erase a successor's link)");
+  __CPROVER_assert(!MCS.published && MCS.fn <= MCS_LOCKX, "[C02][C12][G.node] after my node became reachable through the lock word (during a request after its enqueue step, and during every release or conversion) it is modified only by read-modify-write operations (a plain store can erase a successor's link)");
   a->v = v;
   if(MCS.published) MCS.flags_installed = (M_FLAGS(v) == M_FLAGS(MCS.enq_old));
 }
@@ -250,6 +250,7 @@ static inline _Bool atomic_u64_compare_exchange_weak(atomic_u64 *a, uint64_t *ex
     else
     {
       __CPROVER_assert(MCS.have_node && !MCS.published && desired == (MCS.addr[0] | M_SBIT), "[C01][C02][C12][G.enqueue] a shared request on a free lock installs its own fresh node with one shared holder");
+      __CPROVER_assert(mcs_nodes[0].lock_.v == 0, "[C02][C12][G.enqueue] the node a shared request publishes carries no stale successor link or flag (a cached node was used before)");
       MCS.published = 1;
     }
     __CPROVER_assert(VERIF_IS_ACQUIRE(mo_s), "[C08][acquire] the joining/enqueueing compare-exchange acquires");
